@@ -21,10 +21,10 @@ from vlib import common as C
 
 META = {
     'property_id': 'C08',
-    'technique': 'Lean 4 theorems by induction over arbitrary histories of an executable model of var.go/ue_var.go/builder.go (Var, UnExportedVar, Reset) + differential run of whole histories against the real code over 25 variable types, by pointer and by symbol name',
+    'technique': 'Lean 4 theorems by induction over arbitrary histories of an executable model of var.go/ue_var.go/builder.go (Var, UnExportedVar, Pkg, Reset) + differential run of whole histories against the real code over 26 variable types, by pointer and by symbol name, incl. heap-built values under forced garbage collection',
     'level': 'proof',
-    'level_text': 'Full proof on the model: for every variable type and value (incl. nil interfaces and typed nils), and every history of lookups through the builder cache, Set, Apply, Cancel, Reset (any map iteration order) and direct assignments in which a variable is mocked through one mocker at a time, the variable holds after Cancel/Reset exactly the value it had before its first mock; Cancel/Reset never panic and leave un-mocked variables untouched (also when repeated); a successful Set/Apply makes the variable hold the set value; failed Set/Apply and operations on other variables leave it untouched. The theorems are about the code with fix F8; the unrepaired code is refuted in Findings/C08F8.lean and by replayable violations.',
-    'level_note': 'Trusted: Lean kernel (axioms propext, Classical.choice, Quot.sound at most); the hand-written model Model/Var.lean, tied to the current source on every run by differential execution of thousands of histories (all 25 types, both addressing modes, malformed values, stale handles, two builders); the three facts about reflect the model encodes (ValueOf(nil) is invalid, Set panics on invalid/non-assignable, assignability rule - the latter compared with reflect on all type pairs each run). Not modelled: overlaying an unexported variable with a value of another type (documented as unpredictable by goom; an unexported variable of interface type can therefore not be mocked by name: recorded as known finding K-C08-ue-iface, demonstrated on every run in a child process, refuted in Findings/C08F8.lean), mocking one variable through two mockers at once (two builders, or pointer and name together), data races, GC of the mocker.',
+    'level_text': 'Full proof on the model: for every variable type and value (incl. nil interfaces and typed nils), and every history of lookups through the builder cache (any pending Pkg override), Set, Apply, Cancel, Reset (any map iteration order) and direct assignments in which no two mockers hold a mock of one variable at the same time, the variable holds after Cancel/Reset exactly the value it had before its first mock; a well-typed Set/Apply succeeds and makes the variable hold the value; Cancel/Reset never panic and leave un-mocked variables untouched (also when repeated); failed Set/Apply and operations on other variables leave it untouched; every lookup returns the one mocker of (builder, variable). Without that discipline (several builders on one variable) the per-mocker clause is proved for Reset-free histories (restore_own_first_partial). The theorems are about the code with fixes F8 and F27; the unrepaired code and the three known findings are refuted in Findings/C08F8.lean and by replayable inputs.',
+    'level_note': 'Trusted: Lean kernel (axioms propext, Classical.choice, Quot.sound at most); the hand-written model Model/Var.lean, tied to the current source on every run by differential execution of thousands of histories (26 types incl. a 64-byte struct, variables of another package with initialised data, both addressing modes, malformed values and callbacks, kept handles, two builders, other mocker kinds in the builder, Pkg overrides); the three facts about reflect the model encodes (ValueOf(nil) is invalid, Set panics on invalid/non-assignable, assignability rule - compared with reflect on all type pairs each run). Observed, not proved: that the saved origin stays reachable for the garbage collector and is copied whole (heap-built pre-mock values + forced GC + allocation churn lane), exact symbol-name resolution (decoy symbols: longer names, same short name in another package, path-suffix package). Not exercisable here: the load slide (PIE lookup fails on this toolchain even on unchanged code; probes are pinned to -buildmode=exe). Known findings (demonstrated on every run, exit 0): K-C08-ue-iface (unexported interface-typed variable by name), K-C08-mixed-addressing (pointer and name for one variable in one builder), K-C08-set-nil-interface. Not modelled: overlaying an unexported variable with another type (documented unpredictable), overlapping variables (&s and &s.f share a cache key), data races.',
 }
 
 H = os.path.join(C.HARNESS, 'c08')
@@ -34,29 +34,40 @@ FILES = {'zz_verif_c08_test.go': os.path.join(H, 'var_probe_test.go'),
 # type table (must agree with Drv.C08.tyTable and harness/c08/mkprobe.py; the c08.asg lane checks that it does)
 POOL = {'int': 4, 'int8': 4, 'uint16': 4, 'int64': 4, 'uint64': 4, 'f64': 4, 'bool': 2, 'string': 4, 'c128': 4, 'arr': 4,
         'slice': 4, 'map': 4, 'struct': 4, 'ptr': 4, 'func': 4, 'chan': 4, 'uptr': 4, 'myint': 4, 'islice': 4, 'uintptr': 4,
-        'perr': 4, 'verr': 4}
+        'perr': 4, 'verr': 4, 'big': 4}
 IFACE = {'err': ['perr', 'verr'], 'any': sorted(POOL), 'str': ['verr']}
 TYPES = sorted(POOL) + sorted(IFACE)
 UNDER = {'islice': 'slice', 'slice': 'islice'}          # identical underlying types, one side unnamed
+FRESH = {'string', 'slice', 'map', 'ptr', 'struct', 'perr', 'big'}   # types with heap-built values (rep 10..13), see harness
 CBS_BAD = ['notfunc', 'nilfunc', 'args', 'rets0', 'rets2', 'panics']
 
 
+XVARS = ['xint', 'xstring']          # initialised variables of another package (harness/c08/goomx)
+
+
 def ty_of_var(v):
+    if v in XVARS:
+        return v[1:]
     return v[:-1] if v.endswith('2') else v
 
 
 NILABLE = {'slice', 'map', 'ptr', 'func', 'chan', 'uptr', 'islice', 'perr'}   # rep 0 of these is the typed nil
 
 
-def rand_val(rng, ty, allow_nil=False, exact=False):
-    """a well-typed value token for a variable of type ty (`nil` only where the program itself assigns)"""
+def rand_val(rng, ty, allow_nil=False, exact=False, fresh=(1, 8)):
+    """a well-typed value token for a variable of type ty (`nil` only where the program itself assigns);
+    with probability `fresh` a heap-built value (rep 10..13) that nothing but the variable references"""
     if ty in IFACE:
         if allow_nil and rng.chance(1, 4):
             return 'nil'
         d = rng.choice(IFACE[ty])
+        if d in FRESH and rng.chance(*fresh):
+            return f'{d}:{10 + rng.below(4)}'
         return f'{d}:{rng.below(POOL[d])}'
     if ty in UNDER and not exact and rng.chance(1, 5):
         return f'{UNDER[ty]}:{rng.below(4)}'              # []int <-> zzIntSlice: assignable, converted by reflect
+    if ty in FRESH and rng.chance(*fresh):
+        return f'{ty}:{10 + rng.below(4)}'
     return f'{ty}:{rng.below(POOL[ty])}'
 
 
@@ -97,18 +108,23 @@ def gen_hist(rng, lane, stripped=False):
     h = Hist()
     h.lane = lane
     nv = 1 + rng.below(3)
+    fresh = (3, 4) if lane == 'gc' else (1, 8)
     while len(h.vars) < nv:
         t = rng.choice(TYPES)
+        if lane == 'gc' and rng.chance(3, 4):
+            t = rng.choice(sorted(FRESH) + ['err', 'any'])
         v = t + ('2' if rng.chance(1, 2) else '')
         if h.vars and rng.chance(1, 4):                   # the other variable of a type already present
             t = ty_of_var(h.vars[0])
             v = t + ('' if h.vars[0].endswith('2') else '2')
+        if rng.chance(1, 12):
+            v = rng.choice(XVARS)
         if v not in h.vars:
             h.vars.append(v)
     mode, bld = {}, {}
     for v in h.vars:
         t = ty_of_var(v)
-        h.init[v] = rand_val(rng, t, allow_nil=True, exact=True)
+        h.init[v] = rand_val(rng, t, allow_nil=True, exact=True, fresh=fresh)
         mode[v] = 'p' if (t in IFACE or stripped or rng.chance(1, 2)) else 'u'
         bld[v] = rng.below(2)
     nh = 0
@@ -133,6 +149,12 @@ def gen_hist(rng, lane, stripped=False):
         plan.append((rng.choice(['cancel', 'reset']), rng.choice(h.vars)))
     if rng.chance(1, 12):
         plan.insert(rng.below(len(plan) + 1), ('lookbad', None))
+    # garbage collections (+ allocation churn) while mocks are active; other kinds of mockers in the same builder
+    for _ in range((1 + rng.below(3)) if lane == 'gc' else 0):   # only in lane gc: it runs in its own small process, a forced GC of the big op-stream heap is slow
+        plan.insert(1 + rng.below(len(plan)), ('gc', None))
+    if rng.chance(1, 6):
+        for _ in range(1 + rng.below(2)):
+            plan.insert(rng.below(len(plan) + 1), ('misc', rng.choice(h.vars)))
     # Builder.Pkg(..) overrides pending at lookups: in front of a (re-)lookup, or anywhere
     for _ in range(rng.below(3)):
         looks = [i for i, (k, _) in enumerate(plan) if k == 'look']
@@ -150,6 +172,14 @@ def gen_hist(rng, lane, stripped=False):
             else:
                 h.ops.append('lookbad ' + rng.choice(['missing', 'nil', 'nonptr-int', 'nonptr-map']))
             h.meta.append(('lookbad', None, None))
+            continue
+        if kind == 'gc':
+            h.ops.append('gc')
+            h.meta.append(('gc', None, None))
+            continue
+        if kind == 'misc':
+            h.ops.append(f'misc {bld[v]} ' + rng.choice(['struct', 'func', 'iface', 'exportfunc']))
+            h.meta.append(('misc', None, None))
             continue
         if kind in ('pkg', 'pkglook'):
             h.ops.append(f'pkg {bld[v]} {1 + rng.below(2)}')
@@ -172,11 +202,10 @@ def gen_hist(rng, lane, stripped=False):
                 bld[v] = rng.below(2)                # the same variable through two builders: correspondence only
             h.ops.append(f'look {bld[v]} {mode[v]} {v}')
             h.meta.append(('look', v, None))
-            if canceled[v] is False:
-                valid[v].append(nh)
-            else:
-                valid[v] = [nh]
-                canceled[v] = False
+            # one mocker per (builder, variable) for ever (fix F27): every handle ever obtained stays valid, also one
+            # kept across Cancel/Reset and a re-lookup
+            valid[v].append(nh)
+            canceled[v] = False if canceled[v] is None else canceled[v]
             allh.append((nh, v))
             nh += 1
             continue
@@ -196,7 +225,7 @@ def gen_hist(rng, lane, stripped=False):
         elif kind in ('apply', 'badapply'):
             if kind == 'apply':
                 x = rand_val(rng, t, exact=(mode[v] == 'u'))
-                cb = ('reti:' if rng.chance(1, 3) else 'ret:') + x
+                cb = rng.choice(['reti:', 'ret:', 'ret:', 'ret:', 'vret:']) + x
             elif rng.chance(1, 3):
                 x = bad_val(rng, t, mode[v] == 'u')  # a callback whose result is the nil interface or of another type
                 cb = 'reti:nil' if x == 'nil' else 'ret:' + x
@@ -220,7 +249,7 @@ def gen_hist(rng, lane, stripped=False):
                 if bld[w] == b and canceled[w] is not None:
                     canceled[w] = True
         elif kind == 'write':
-            x = rand_val(rng, t, allow_nil=True, exact=True)
+            x = rand_val(rng, t, allow_nil=True, exact=True, fresh=fresh)
             h.ops.append(f'write {v} {x}')
             h.meta.append(('write', v, x))
     return h
@@ -253,7 +282,7 @@ def oracle(h, obs):
             if '/' in val:
                 return (k, f'{w}: direct read and accessor disagree ({val})', 'readers-disagree')
         exp = dict(cur)
-        if kind == 'pkg':
+        if kind in ('pkg', 'gc', 'misc'):
             if out != 'ok':
                 return (k, f'{h.ops[k]} failed: {out}', 'pkg-failed')
         elif kind in ('look', 'lookbad'):
@@ -305,26 +334,57 @@ def oracle(h, obs):
 
 
 _BIN = {}
+STATS = {'probe_crashes': 0, 'unreproduced_crashes': 0, 'probe_timeouts': 0}
+PROBE_ENV = {'GOOM_DEBUG': ''}     # goom's own environment knob (debug logging) must not leak into the probes
 
 
 def build_probe(tag, ldflags):
+    """`go test -c -overlay` of the root package with the probe files, pinned to -buildmode=exe: lookup by name reads
+    .gopclntab/.symtab of a non-PIE binary (a PIE default would make every by-name lookup fail on correct code)."""
     if tag not in _BIN:
-        b, err = C.overlay_build(tag, '', FILES, C.helper_pkgs(), ldflags=ldflags)
-        if b is None:
-            raise C.Infra(f'probe {tag} does not build against the current tree:\n{err[-3000:]}')
-        _BIN[tag] = b
+        import json
+        repl = {os.path.join(C.REPO, v): real for v, real in FILES.items()}
+        pk = dict(C.helper_pkgs())
+        pk['zzverifx'] = {'x.go': os.path.join(H, 'goomx', 'x.go')}
+        pk['internal/zzverif/c08a/github.com/tencent/goom/zzverifx'] = {'y.go': os.path.join(H, 'goomy', 'y.go')}
+        for vdir, fmap in pk.items():
+            for vname, real in fmap.items():
+                repl[os.path.join(C.REPO, vdir, vname)] = real
+        ov = os.path.join(C.BUILD, f'{tag}.overlay.json')
+        json.dump({'Replace': repl}, open(ov, 'w'), indent=1)
+        out = os.path.join(C.BUILD, f'{tag}.test')
+        if os.path.exists(out):
+            os.remove(out)
+        cmd = ['go', 'test', '-c', '-o', out, '-overlay', ov, '-vet=off', '-buildmode=exe', '-gcflags=all=-l', '-ldflags=' + ldflags, '.']
+        rc, o, e = C.sh(cmd, cwd=C.REPO, env=C.goenv({'GOOM_DEBUG': ''}), timeout=1800)
+        if rc != 0 or not os.path.exists(out):
+            raise C.Infra(f'probe {tag} does not build against the current tree:\n{(o + e)[-3000:]}')
+        _BIN[tag] = out
     return _BIN[tag]
 
 
-def run_impl(binary, ops, tag):
-    """Run the probe; a crash loses nothing before it and the remainder is re-run after the crashed line."""
+def _probe_once(binary, ops_path, outp, start, timeout):
+    """one probe process; returns (rc, log); rc = 'timeout' if it had to be killed"""
+    import subprocess
+    try:
+        return C.run_probe(binary, 'TestVerifC08', ops_path, outp, env=dict(PROBE_ENV, VERIF_START=str(start)), timeout=timeout)
+    except subprocess.TimeoutExpired:
+        STATS['probe_timeouts'] += 1
+        return 'timeout', 'probe killed after timeout'
+
+
+def run_impl(binary, ops, tag, timeout=None):
+    """Run the probe (timeout >= 10x the typical wall time).  A crash or kill loses nothing before it: the line it died on
+    is re-run ONCE alone (only a reproducing crash/timeout is reported as the observation `crash`), then the remainder."""
+    if timeout is None:
+        timeout = 1800 + len(ops) // 10          # typical: 1 ms per history unloaded; >= 10x that plus a floor
     ops_path = os.path.join(C.BUILD, f'{tag}.ops')
     open(ops_path, 'w').write('\n'.join(ops) + '\n')
     impl = [None] * len(ops)
     start, crashes = 0, 0
     while start < len(ops):
         outp = os.path.join(C.BUILD, f'{tag}.impl')
-        rc, log = C.run_probe(binary, 'TestVerifC08', ops_path, outp, env={'VERIF_START': str(start)})
+        rc, log = _probe_once(binary, ops_path, outp, start, timeout)
         got = C.read_indexed(outp, len(ops))
         last = start - 1
         for i, v in enumerate(got):
@@ -334,9 +394,19 @@ def run_impl(binary, ops, tag):
         if rc == 0:
             break
         crashes += 1
-        if last + 1 < len(ops):
-            impl[last + 1] = 'crash'
-        start = last + 2
+        STATS['probe_crashes'] += 1
+        bad = last + 1
+        if bad < len(ops):
+            one = os.path.join(C.BUILD, f'{tag}.one.ops')
+            open(one, 'w').write(ops[bad] + '\n')
+            rc1, _ = _probe_once(binary, one, outp + '.one', 0, timeout)
+            g1 = C.read_indexed(outp + '.one', 1)
+            if rc1 == 0 and g1[0] is not None:
+                impl[bad] = g1[0]
+                STATS['unreproduced_crashes'] += 1
+            else:
+                impl[bad] = 'crash'
+        start = bad + 1
         if crashes > 20:
             raise C.Infra('probe keeps crashing:\n' + log[-2000:])
     return impl, ops_path
@@ -368,6 +438,11 @@ def execute(lines, tag, stripped=False):
 
 
 CORPUS = [  # the confirmed defects of F8 and their relatives, run first on every seed
+    # a handle kept across Cancel and a re-lookup must stay the builder's mocker (F27)
+    ('disc', 'int=int:1', ['look 0 p int', 'set 0 int:2', 'cancel 0', 'look 0 p int', 'set 0 int:3', 'reset 0'],
+     [('look', 'int', None), ('set', 'int', 'int:2'), ('cancel', 'int', None), ('look', 'int', None), ('set', 'int', 'int:3'), ('reset', ['int'], None)]),
+    ('disc', 'map=map:1', ['look 1 u map', 'apply 0 ret:map:2', 'reset 1', 'look 1 u map', 'set 0 map:3', 'cancel 1'],
+     [('look', 'map', None), ('apply', 'map', 'map:2'), ('reset', ['map'], None), ('look', 'map', None), ('set', 'map', 'map:3'), ('cancel', 'map', None)]),
     # same unexported variable looked up again under a pending Pkg(..) override: must be the same mocker
     ('disc', 'int=int:1', ['look 0 u int', 'set 0 int:2', 'pkg 0 1', 'look 0 u int', 'set 1 int:3', 'cancel 1'],
      [('look', 'int', None), ('set', 'int', 'int:2'), ('pkg', None, None), ('look', 'int', None), ('set', 'int', 'int:3'), ('cancel', 'int', None)]),
@@ -435,13 +510,17 @@ def run(tier):
     out = C.Outcome('C08', tier)
     rng = C.Rng(C.seed()).fork('C08')
     proof = C.prove('C08', leanchecker=(tier == 'thorough'))
-    n_disc, n_long, n_wild, n_strip = (1500, 200, 500, 60) if tier == 'quick' else (300000, 30000, 100000, 2000)
+    n_disc, n_long, n_wild, n_strip, n_gc = (1500, 200, 500, 60, 250) if tier == 'quick' else (200000, 20000, 60000, 1500, 4000)
     hists = corpus_hists()
     hists += [gen_hist(rng, 'disc') for _ in range(n_disc)]
     hists += [gen_hist(rng, 'long') for _ in range(n_long)]
     hists += [gen_hist(rng, 'wild') for _ in range(n_wild)]
     lines = [h.line() for h in hists] + asg_lines()
     impl, model, legacy, derr = execute(lines, 'c08')
+    # lane gc in a process of its own (small heap: every `gc` op forces three full collections)
+    ghists = [gen_hist(rng, 'gc') for _ in range(n_gc)]
+    glines = [h.line() for h in ghists]
+    gimpl, gmodel, glegacy, _ = execute(glines, 'c08-gc')
     shists = [gen_hist(rng, 'disc', stripped=True) for _ in range(n_strip)]
     for h in shists[:10]:
         h.ops.insert(0, f'lookbad stripped {h.vars[0]}')
@@ -449,9 +528,16 @@ def run(tier):
     slines = [h.line() for h in shists]
     simpl, smodel, _, _ = execute(slines, 'c08-stripped', stripped=True)
 
+    # floors: a lane that silently ran nothing is a machinery error, not a pass
+    answered = sum(1 for x in impl if x is not None) + sum(1 for x in simpl if x is not None) + sum(1 for x in gimpl if x is not None)
+    if answered < 0.98 * (len(lines) + len(slines) + len(glines)) or STATS['probe_crashes'] > 5 and not os.environ.get('VERIF_ALLOW_CRASHES'):
+        if STATS['probe_crashes'] <= 5:
+            raise C.Infra(f'the probe answered only {answered} of {len(lines) + len(slines) + len(glines)} lines')
+    if model is not None and len(model) != len(lines):
+        raise C.Infra(f'the model driver answered {len(model)} of {len(lines)} lines')
     # 1. the property on the implementation
     bad = []
-    for hs, im, which in ((hists, impl, 'symbols'), (shists, simpl, 'stripped')):
+    for hs, im, which in ((hists, impl, 'symbols'), (ghists, gimpl, 'symbols'), (shists, simpl, 'stripped')):
         for i, h in enumerate(hs):
             if h.lane == 'wild':
                 continue
@@ -487,17 +573,56 @@ def run(tier):
     kh = Hist()
     kh.vars, kh.init, kh.ops = ['err'], {'err': 'nil'}, ['look 0 u err', 'set 0 perr:1']
     kh.meta = [('look', 'err', None), ('set', 'err', 'perr:1')]
-    kimpl, _ = run_impl(build_probe('c08-var', '-s=false'), [kh.line()], 'c08-ueiface')
+    kimpl, _ = run_impl(build_probe('c08-var', '-s=false'), [kh.line()], 'c08-ueiface', timeout=300)
     kwhy = oracle(kh, kimpl[0])
     if kwhy:
         out.violation(f'{kh.line()}: {kwhy[1]}', {'kind': 'impl-oracle', 'ops': [kh.line()], 'meta': kh.meta, 'vars': kh.vars, 'init': kh.init,
                                                  'observed': kimpl[0], 'why': kwhy[1], 'class': 'ue-iface-var'}, key='ue-iface-var')
+    # 1c. known finding: one variable addressed by pointer AND by name in one builder (two cache keys, two mockers)
+    mh = []
+    for ty in ['int', 'string', 'slice', 'struct']:
+        for tail in (['cancel 0', 'cancel 1'], ['reset 0']):
+            m = Hist()
+            m.lane, m.vars, m.init = 'mixed', [ty], {ty: f'{ty}:1'}
+            m.ops = [f'look 0 p {ty}', f'look 0 u {ty}', f'set 0 {ty}:2', f'set 1 {ty}:3'] + tail
+            m.meta = [('look', ty, None), ('look', ty, None), ('set', ty, f'{ty}:2'), ('set', ty, f'{ty}:3')] + \
+                     [('cancel', ty, None) if t.startswith('cancel') else ('reset', [ty], None) for t in tail]
+            mh.append(m)
+    mlines = [m.line() for m in mh]
+    mimpl, mmodel, _, _ = execute(mlines, 'c08-mixed')
+    for m, ob in zip(mh, mimpl):
+        w = oracle(m, ob)
+        if w and w[2].split(':')[0] in ('restore', 'untouched'):
+            out.violation(f'{m.line()}: step {w[0]}: {w[1]}', {'kind': 'impl-oracle', 'ops': [m.line()], 'meta': m.meta, 'vars': m.vars, 'init': m.init,
+                                                               'observed': ob, 'why': w[1], 'class': 'mixed-addressing'}, key='mixed-addressing')
+        elif w:
+            out.violation(f'{m.line()}: step {w[0]}: {w[1]}', {'kind': 'impl-oracle', 'ops': [m.line()], 'meta': m.meta, 'vars': m.vars, 'init': m.init,
+                                                               'observed': ob, 'why': w[1], 'class': w[2]})
+    # 1d. known finding: an interface-typed variable cannot be mocked to nil (Set(nil) / a callback returning a nil interface)
+    nh_ = []
+    for ops, meta in ((['look 0 p err', 'set 0 nil'], [('look', 'err', None), ('set', 'err', 'nil')]),
+                      (['look 0 p any', 'apply 0 reti:nil'], [('look', 'any', None), ('apply', 'any', 'nil')])):
+        m = Hist()
+        v = meta[0][1]
+        m.lane, m.vars, m.init, m.ops, m.meta = 'nil', [v], {v: 'perr:1'}, ops, meta
+        nh_.append(m)
+    nimpl, nmodel, _, _ = execute([m.line() for m in nh_], 'c08-nil')
+    for m, ob in zip(nh_, nimpl):
+        w = oracle(m, ob)
+        if w and w[2].endswith('-rejected:panic:setZeroValue'):
+            out.violation(f'{m.line()}: step {w[0]}: {w[1]}', {'kind': 'impl-oracle', 'ops': [m.line()], 'meta': m.meta, 'vars': m.vars, 'init': m.init,
+                                                               'observed': ob, 'why': w[1], 'class': 'set-nil-interface'}, key='set-nil-interface')
+        elif w:
+            out.violation(f'{m.line()}: step {w[0]}: {w[1]}', {'kind': 'impl-oracle', 'ops': [m.line()], 'meta': m.meta, 'vars': m.vars, 'init': m.init,
+                                                               'observed': ob, 'why': w[1], 'class': w[2]})
     # 2. correspondence
     diffs = []
     if model is None:
         proof['failed'].append(('goomdrv', 'driver does not build: ' + derr[-500:]))
     else:
-        for ls, im, mo in ((lines, impl, model), (slines, simpl, smodel)):
+        det = [i for i, l in enumerate(mlines) if ' reset ' not in l]     # Reset over two mockers of one variable is order-dependent
+        for ls, im, mo in ((lines, impl, model), (glines, gimpl, gmodel or []), (slines, simpl, smodel), ([mlines[i] for i in det], [mimpl[i] for i in det], [mmodel[i] for i in det]),
+                           ([m.line() for m in nh_], nimpl, nmodel)):
             for i, l in enumerate(ls):
                 if not model_prefix_equal(im[i], mo[i] if i < len(mo) else None):
                     diffs.append((l, im[i], mo[i] if i < len(mo) else None, legacy[i] if ls is lines and legacy and i < len(legacy) else None))
@@ -513,8 +638,8 @@ def run(tier):
                           {'kind': 'proof', 'broken': proof['failed'], 'searched': len(lines) + len(slines), 'output': proof.get('output', '')[-3000:]},
                           no_failing_input=True)
     # evidence
-    allh = hists + shists
-    allimpl = list(impl[:len(hists)]) + list(simpl)
+    allh = hists + ghists + shists
+    allimpl = list(impl[:len(hists)]) + list(gimpl) + list(simpl)
     dist = {'lanes': {}, 'op_kinds': {}, 'outcomes': {}, 'var_types': {}, 'modes': {'p': 0, 'u': 0}, 'history_length': {}}
     nontrivial = set()
     for h, ob in zip(allh, allimpl):
@@ -535,6 +660,8 @@ def run(tier):
                 okset = okset or (m[0] in ('set', 'apply') and oc == 'ok')
             if okset:
                 nontrivial.add(h.line())
+    if not bad and not diffs and len(nontrivial) < 0.5 * len(allh):
+        raise C.Infra(f'only {len(nontrivial)} of {len(allh)} histories had a successful Set/Apply: the generator or the probe is broken')
     out.coverage = {
         'obligations': proof['obligations'], 'discharged': proof['discharged'],
         'checker_cmd': ' ; '.join(proof['cmds']),
@@ -543,13 +670,13 @@ def run(tier):
                          'reflect facts encoded in the model: ValueOf(nil) invalid, Set panics on invalid/non-assignable source, assignability rule (compared with reflect on every type pair each run)',
                          'probe canonicalisation harness/c08 (value identity by pool element, panic message classes)'],
         'theorems': proof['axioms'], 'proof_failures': proof['failed'],
-        'evaluations': len(lines) + len(slines), 'distinct_nontrivial': len(nontrivial),
-        'traces_validated_against_impl': len(lines) + len(slines) - len(diffs),
+        'evaluations': len(lines) + len(slines) + len(glines), 'distinct_nontrivial': len(nontrivial),
+        'traces_validated_against_impl': len(lines) + len(slines) + len(glines) - len(diffs),
         'rule': 'one evaluation = one whole history (1-3 variables of 25 types x 2 variables, lookups by pointer or by symbol name, Set/Apply x0..7 incl. malformed values and callbacks, '
                 'Cancel/Reset x1..n, direct writes, re-lookups, Builder.Pkg overrides pending at lookups; lanes: disc = one mocker per variable at a time (oracle + correspondence), long = same, longer, wild = stale handles too '
                 '(correspondence only), stripped binary) or one c08.asg type pair; non-trivial = distinct history in which at least one Set/Apply succeeded on the real code',
         'distribution': dist,
-        'assignability_pairs': len(asg_lines()),
+        'assignability_pairs': len(asg_lines()), 'machinery': dict(STATS),
         'samples': [{'op': lines[i], 'impl': impl[i], 'model': model[i] if model else None} for i in (0, 7, len(hists) // 2, len(hists) - 1)],
     }
     out.assumptions = ['one mocker per variable at a time (one builder, one addressing mode, no superseded handles) for the restore theorems',
